@@ -220,6 +220,39 @@ Definition parse_file (f : fmt) (schema : list Z) (file : list Z) : option (list
    PART B — MODEL: the library's algorithms
    ===================================================================================== *)
 
+(* ---- named arithmetic kernels: each is re-derived from /repo on every run (Gen/C03.v, translate/gen_c03.py)
+   and proved equal to the definition here by Bridge/C03.v ---- *)
+(* multiline_buffer.MultiLineFastaBuffer.from_data *)
+Definition m_fasta_n_lines (L w : Z) : Z := (L - 1) / w + 1.
+Definition m_fasta_last_length (L w : Z) : Z := (L - 1) mod w + 1.
+Definition m_fasta_total (sum_n count : Z) : Z := sum_n + count.
+Definition m_fasta_fill (w : Z) : Z := w + 1.
+Definition m_fasta_first_start : Z := 0.
+Definition m_fasta_entry_step : Z -> Z := fun n => n + 1.
+Definition m_fasta_has_lines : Z -> bool := fun n => 0 <? n.
+Definition m_fasta_last_index : Z -> Z := fun s => s - 1.
+Definition m_fasta_last_value : Z -> Z := fun n => n + 1.
+Definition m_fasta_hdr_value : Z -> Z := fun n => n + 2.
+Definition m_fasta_body_len (L : Z) : Z := L - 1.
+Definition m_fasta_last_before_header : bool := true.
+(* dump_csv.join_columns / one_line_buffer.join_fields: cell length + separator byte + column offset *)
+Definition m_line_len (clen off : Z) : Z := clen + 1 + off.
+Definition m_join_nl_start (n : nat) : nat := (n - 1)%nat.
+Definition m_sep : Z := 9.
+Definition m_newline : Z := 10.
+(* fastq_buffer.FastQBuffer *)
+Definition m_fastq_offsets : list nat := [1%nat; O; O; O].
+Definition m_fastq_n_lines : nat := 4%nat.
+Definition m_fastq_header : Z := 64.
+Definition m_fastq_plus : Z := 43.
+Definition m_fastq_plus_position : nat := 2%nat.
+(* vcf_buffers: POS written = stored + 1, on the eager path (from_data) and the lazy one (process_field_for_write) *)
+Definition m_vcf_pos_delta : Z := 1.
+(* parser.NpBufferedWriter.write: when the header is emitted; stream loop does not skip empty chunks *)
+Definition m_emits_header (has_make_header append header_written : bool) : bool :=
+  has_make_header && negb append && negb header_written.
+Definition m_stream_skips_empty : bool := false.
+
 (* ---- strops.ints_to_strings ----
    lengths = int(log10(max(|n|,1))) + 1 (+1 for '-'), digit j = |n| // 10^(len-1-j) % 10, then '-' is
    stored over position 0 of negative numbers.  np.abs wraps at -2^63. *)
@@ -284,7 +317,7 @@ Definition columns (ncol : nat) (rows : list (list (list Z))) : list (list (list
   map (fun i => map (fun r => nth i r []) rows) (seq 0 ncol).
 (* lengths matrix (rows x columns) raveled row-major: cell length + 1 + per-column offset *)
 Definition line_lengths (offs : list nat) (cols : list (list (list Z))) (nrow : nat) : list Z :=
-  flat_map (fun r => map (fun i => len (nth r (nth i cols []) []) + 1 + Z.of_nat (nth i offs O))
+  flat_map (fun r => map (fun i => m_line_len (len (nth r (nth i cols []) [])) (Z.of_nat (nth i offs O)))
                          (seq 0 (length cols)))
            (seq 0 nrow).
 (* for i, column in enumerate(columns): lines[i::n, off_i:-1] = column *)
@@ -298,23 +331,25 @@ Definition scatter (offs : list nat) (cols : list (list (list Z))) (nrow : nat) 
 Definition join_columns (cols : list (list (list Z))) (nrow : nat) : list Z :=
   let n := length cols in
   let lines := scatter (repeat O n) cols nrow in
-  let lines := map (set_last 9) lines in
-  let lines := map_stride (set_last 10) (n - 1) n lines in
+  let lines := map (set_last m_sep) lines in
+  let lines := map_stride (set_last m_newline) (m_join_nl_start n) n lines in
   concat lines.
 Definition delim_from_data (rows : list row) : list Z :=
   let ncol := length (hd [] rows) in
   join_columns (columns ncol (map (map col_text) rows)) (length rows).
 
 (* OneLineBuffer.join_fields with FastQBuffer's '+' line *)
+Definition fastq_texts : row -> list (list Z) :=
+  fun r => match r with
+           | [n; s; q] => [col_text n; col_text s; [m_fastq_plus]; col_text q]
+           | _ => [[]; []; [m_fastq_plus]; []]
+           end.
 Definition fastq_from_data (rows : list row) : list Z :=
-  let texts := map (fun r => match r with
-                             | [n; s; q] => [col_text n; col_text s; [43]; col_text q]
-                             | _ => [[]; []; [43]; []]
-                             end) rows in
-  let cols := columns 4 texts in
-  let lines := scatter [1%nat; O; O; O] cols (length rows) in
-  let lines := map_stride (set_first 64) 0 4 lines in
-  concat (map (set_last 10) lines).
+  let texts := map fastq_texts rows in
+  let cols := columns m_fastq_n_lines texts in
+  let lines := scatter m_fastq_offsets cols (length rows) in
+  let lines := map_stride (set_first m_fastq_header) 0 m_fastq_n_lines lines in
+  concat (map (set_last m_newline) lines).
 
 (* ---- MultiLineFastaBuffer.from_data ---- *)
 Fixpoint set_nth {A} (i : nat) (v : A) (l : list A) : list A :=
@@ -342,9 +377,9 @@ Fixpoint fasta_fill (ll : list Z) (is_hdr : list bool) (names : list (list Z)) (
         | [] => None
         end
       else
-        if (1 <=? L) && (L - 1 <=? len data) then
-          option_map (app (firstn (Z.to_nat (L - 1)) data ++ [10]))
-                     (fasta_fill ll' is_hdr' names (skipn (Z.to_nat (L - 1)) data))
+        if (1 <=? L) && (m_fasta_body_len L <=? len data) then
+          option_map (app (firstn (Z.to_nat (m_fasta_body_len L)) data ++ [10]))
+                     (fasta_fill ll' is_hdr' names (skipn (Z.to_nat (m_fasta_body_len L)) data))
         else None
   | _ :: _, [] => None
   end.
@@ -363,19 +398,24 @@ Definition fasta_from_data_pinned (w : Z) (es : list (list Z * list Z)) : option
   fasta_fill ll2 is_hdr (map fst es) (concat (map snd es)).
 (* repaired (notes/C03.fix-3.diff): the last-line length is stored only for entries that have lines, and
    before the header-line lengths *)
+(* the two fancy-index assignments into line_lengths, in the order the source performs them *)
+Definition fasta_line_lengths (last_first : bool) (hdr_idx hdr_vals last_idx last_vals ll0 : list Z) : list Z :=
+  if last_first then set_many hdr_idx hdr_vals (set_many last_idx last_vals ll0)
+  else set_many last_idx last_vals (set_many hdr_idx hdr_vals ll0).
 Definition fasta_from_data_fixed (w : Z) (es : list (list Z * list Z)) : option (list Z) :=
   let name_lengths := map (fun e => len (fst e)) es in
   let seq_lengths := map (fun e => len (snd e)) es in
-  let n_lines := map (fun L => (L - 1) / w + 1) seq_lengths in
-  let last_length := map (fun L => (L - 1) mod w + 1) seq_lengths in
-  let total := sumZ n_lines + len n_lines in
-  let ll0 := repeat (w + 1) (Z.to_nat total) in
-  let entry_starts := 0 :: cumsum (map (fun n => n + 1) n_lines) in
+  let n_lines := map (fun L => m_fasta_n_lines L w) seq_lengths in
+  let last_length := map (fun L => m_fasta_last_length L w) seq_lengths in
+  let total := m_fasta_total (sumZ n_lines) (len n_lines) in
+  let ll0 := repeat (m_fasta_fill w) (Z.to_nat total) in
+  let entry_starts := m_fasta_first_start :: cumsum (map m_fasta_entry_step n_lines) in
   let hdr_idx := removelast entry_starts in
-  let has_lines := map (fun n => 0 <? n) n_lines in
-  let ll1 := set_many (mask_select has_lines (map (fun s => s - 1) (tl entry_starts)))
-                      (mask_select has_lines (map (fun n => n + 1) last_length)) ll0 in
-  let ll2 := set_many hdr_idx (map (fun n => n + 2) name_lengths) ll1 in
+  let has_lines := map m_fasta_has_lines n_lines in
+  let ll2 := fasta_line_lengths m_fasta_last_before_header
+               hdr_idx (map m_fasta_hdr_value name_lengths)
+               (mask_select has_lines (map m_fasta_last_index (tl entry_starts)))
+               (mask_select has_lines (map m_fasta_last_value last_length)) ll0 in
   let is_hdr := map (fun i => existsb (Z.eqb i) hdr_idx) (arange total) in
   fasta_fill ll2 is_hdr (map fst es) (concat (map snd es)).
 (* SWITCH: the code as it is in /repo *)
@@ -389,8 +429,8 @@ Definition union_info_writable := true.
 Definition from_data (f : fmt) (rows : list row) : Z * list Z :=
   match f with
   | Delim => (0, delim_from_data rows)
-  | Vcf => (0, delim_from_data (map (vcf_shift 1) rows))
-  | VcfU => if union_info_writable then (0, delim_from_data (map (vcf_shift 1) rows)) else (2, [])
+  | Vcf => (0, delim_from_data (map (vcf_shift m_vcf_pos_delta) rows))
+  | VcfU => if union_info_writable then (0, delim_from_data (map (vcf_shift m_vcf_pos_delta) rows)) else (2, [])
   | VcfL => (0, serialise VcfL rows)      (* buffer.data.ravel(): the canonical source lines *)
   | Fastq => (0, fastq_from_data rows)
   | Fasta w =>
@@ -414,7 +454,7 @@ Record wstate := { w_hw : bool; w_out : list Z; w_err : Z }.
    of from_data; after an exception nothing further happens *)
 Definition write_one (f : fmt) (header : list Z) (ab : bool) (st : wstate) (chunk : list row) : wstate :=
   if negb (w_err st =? 0) then st else
-  let st1 := if has_header f && negb ab && negb (w_hw st)
+  let st1 := if m_emits_header (has_header f) ab (w_hw st)
              then {| w_hw := true; w_out := w_out st ++ header; w_err := 0 |} else st in
   match chunk with
   | [] => st1
@@ -440,7 +480,7 @@ Definition run_hist_with (is_ab : bool -> bool -> bool) (skip : bool) (f : fmt) 
 (* the code as it is in /repo, and the repaired writer (notes/C03.fix-1.diff for the append test,
    notes/C03.fix-2.diff for streams) *)
 Definition run_hist_pinned := run_hist_with mode_is_ab_pinned true.
-Definition run_hist_fixed := run_hist_with mode_is_ab_fixed false.
+Definition run_hist_fixed := run_hist_with mode_is_ab_fixed m_stream_skips_empty.
 (* SWITCH: the code as it is in /repo (fix-1 only: run_hist_with mode_is_ab_fixed true;
    fix-2 only: run_hist_with mode_is_ab_pinned false) *)
 Definition run_hist := run_hist_fixed.
